@@ -1,4 +1,5 @@
 import Ebu.Props.C03
+import Ebu.Proofs.PersistConc
 import Ebu.Spec.Bus
 import Ebu.Proofs.BusPersist
 /-!
@@ -69,11 +70,34 @@ theorem offsets_increasing {R : Type} (I : RegImpl R) (cfg : Config) (fuel : Nat
     okOffsets s.c.trace = (List.range s.c.log.length).map (· + 1) ∧ s.c.lastOffset = s.c.log.length :=
   Ebu.Bus.offsets_increasing I cfg fuel faults prog
 
-/-- N publishes from any number of goroutines give N records with strictly increasing offsets
-because `persistEvent` calls `store.Append` and updates `lastOffset` inside one `storeMu` critical
-section in the CURRENT source (fact table regenerated from persist.go on every run): appends are
-serialised, so the sequential theorem `offsets_increasing` applies to every interleaving -/
-theorem appends_serialised : Ebu.Locks.CallbacksOk Ebu.Generated.callbackFacts = true :=
-  Ebu.Props.C03.facts_callbacks_lock_free
+/-! ### N publishers, every schedule (M2p, `Ebu/Model/PersistConc.lean`) -/
+
+/-- for any number of concurrent publishers and EVERY schedule: the offsets in the log are 1, 2, 3, … (distinct,
+strictly increasing in log order) and `lastOffset` is the last one handed out -/
+theorem concurrent_offsets_increasing (recs sched : List Nat) :
+    let s := Ebu.PersistConc.run recs sched
+    s.log.map (·.1) = List.range' 1 s.log.length ∧ s.lastOffset = s.log.length :=
+  Ebu.PersistConc.offsets_ok recs sched
+
+/-- … the log holds exactly one record per publish that has persisted (none lost, none twice), so N publishes that
+have all got past `persistEvent` give exactly N records -/
+theorem concurrent_one_record_per_publish (recs sched : List Nat) :
+    let s := Ebu.PersistConc.run recs sched
+    (s.log.map (·.2)).Perm (Ebu.PersistConc.persistedRecs s) ∧
+    ((∀ t ∈ s.threads, 0 < t.pc) → s.log.length = recs.length) := by
+  refine ⟨Ebu.PersistConc.log_ok recs sched, fun hall => ?_⟩
+  rw [Ebu.PersistConc.all_persisted_length recs sched hall, Ebu.PersistConc.threads_length]
+
+/-- … and the handlers of every publish run with that publish's record already readable from the log -/
+theorem concurrent_recorded_before_delivery (recs sched : List Nat) :
+    ∀ p ∈ (Ebu.PersistConc.run recs sched).seen, p.1 ∈ p.2.map (·.2) :=
+  (Ebu.PersistConc.seen_ok recs sched).1
+
+/-- the atomic persist step of M2p is what the CURRENT source does: `store.Append` and the update of `lastOffset`
+sit inside one `storeMu` critical section (fact table regenerated from persist.go on every run); without it two
+publishers can be handed the same offset (`Ebu.PersistConc.unlocked_duplicates_offsets`) -/
+theorem appends_serialised : Ebu.Locks.CallbacksOk Ebu.Generated.callbackFacts = true ∧
+    ((([0, 1, 0, 1].foldl Ebu.PersistConc.ustepAt { threads := [{ record := 7 }, { record := 8 }] }).log.map (·.1)) = [1, 1]) :=
+  ⟨Ebu.Props.C03.facts_callbacks_lock_free, Ebu.PersistConc.unlocked_duplicates_offsets⟩
 
 end Ebu.Props.C09
